@@ -743,3 +743,44 @@ def route_tables_append_only(tree, ob, rel='bp/agent.py'):
                 ob.violate(rel, qual, src(node)[:80], 'a route table is changed at run time other than by appending: a configured route (with its MTU) can be replaced or dropped, '
                            'bundles then leave unfragmented or by another route than configured', node, sure=True)
     ob.require(n >= 1, 'appends to the route tables in ' + rel)
+
+
+def transfers_outlive_sess_term(tree, ob):
+    ''' RFC 9174: after SESS_TERM no NEW transfer starts; the ones in progress are finished.  The segment and acknowledgement
+    handlers therefore never refuse (or drop) a message because a SESS_TERM was sent or received -- a refusal conditioned
+    on the termination flags cuts a transfer in progress off: it is never delivered / never acknowledged. '''
+    SESS = 'tcpcl/session.py'
+    n = 0
+    for qual in ('Messenger.recv_xfer_data', 'ContactHandler.recv_xfer_data', 'Messenger.recv_xfer_ack', 'ContactHandler.recv_xfer_ack'):
+        fv = FuncView(tree, SESS, qual)
+        for r in [x for x in walk_local(fv.func) if isinstance(x, (ast.Raise, ast.Return))]:
+            n += 1
+            facts = fv.facts(r) or ()
+            bad = [(t, p) for (t, p) in facts if ('_term_recv' in t or '_in_term' in t or '_term_sent' in t) and p is True]
+            if bad and (isinstance(r, ast.Raise) or r.value is None):
+                ob.violate(SESS, qual, '{} under {}'.format(src(r)[:50], bad[0][0]), 'a transfer message is refused / dropped because the session is terminating: a transfer that was in progress when SESS_TERM '
+                           'went by is cut off (its bundle is never delivered, its sender never acknowledged) although termination has to let it finish', r, sure=True)
+    ob.require(n >= 2, 'exits of the transfer handlers')
+    if not ob.findings:
+        ob.site(SESS, tree.func(SESS, 'Messenger.recv_xfer_data'), 'the transfer handlers take segments and acknowledgements whatever the termination flags say ({} exits)'.format(n))
+
+
+def rx_map_inserted_on_completion_only(tree, ob):
+    ''' the receive queue lists completed bundles in the order they completed (dict order): an entry is made in one place, when
+    the END segment of a transfer has been taken.  A method that takes an entry out and puts it back (to "roll back" a failed
+    pop) moves it behind the bundles that completed later. '''
+    SESS = 'tcpcl/session.py'
+    cls = tree.klass(SESS, 'ContactHandler')
+    n = 0
+    for m in [x for x in cls.body if isinstance(x, ast.FunctionDef)]:
+        for node in walk_local(m):
+            if isinstance(node, (ast.Assign, ast.AugAssign)):
+                for t in (node.targets if isinstance(node, ast.Assign) else [node.target]):
+                    if isinstance(t, ast.Subscript) and self_attr(t.value) == '_rx_map':
+                        n += 1
+                        if m.name == 'recv_xfer_data':
+                            ob.site(SESS, node, 'queue entry made when the transfer completes')
+                        else:
+                            ob.violate(SESS, 'ContactHandler.' + m.name, src(node)[:60], 'an entry of the receive queue is (re-)inserted outside the completion of a transfer: it moves to the end of '
+                                       'the queue, recv_bundle_get_queue no longer lists bundles in the order they arrived', node, sure=True)
+    ob.require(n >= 1, 'insertions into _rx_map')
